@@ -142,6 +142,18 @@ def drop_set_vars(f: Func) -> Set[str]:
     return out
 
 
+def _step(a: ast.AugAssign) -> int:
+    """Amount a counter statement adds: the literal of `x += k` / `x -= k`; anything else counts as an
+    unknown large step (it is never the unit step the counters rules ask for)."""
+    v = a.value
+    if isinstance(v, ast.Constant) and type(v.value) is int:
+        if isinstance(a.op, ast.Add):
+            return v.value
+        if isinstance(a.op, ast.Sub):
+            return -v.value
+    return 1000
+
+
 def path_report(ctx, f: Func, lp: ast.For, drop_sets: Set[str]):
     g = ctx.cfg(f, exceptional=True)
     paths = g.loop_paths(lp)
@@ -155,7 +167,7 @@ def path_report(ctx, f: Func, lp: ast.For, drop_sets: Set[str]):
             if nd.kind == "stmt":
                 evs.extend(classify_stmt_events(ctx, f, lp, nd.ast, drop_sets))
                 if isinstance(nd.ast, ast.AugAssign) and isinstance(nd.ast.target, ast.Name):
-                    incs[nd.ast.target.id] = incs.get(nd.ast.target.id, 0) + 1
+                    incs[nd.ast.target.id] = incs.get(nd.ast.target.id, 0) + _step(nd.ast)
         res.append((nodes, end, evs, incs))
     return g, res
 
@@ -372,8 +384,9 @@ def _remove_counters(ctx):
                 continue
             k = kinds[0]
             if k == "KEEP":
-                if incs.get(keep_cnt, 0) != 1:
-                    bad.append(f"KEEP path {_path_text(g, nodes)} increments {keep_cnt} {incs.get(keep_cnt, 0)} times")
+                if incs.get(keep_cnt, 0) < 1:
+                    bad.append(f"KEEP path {_path_text(g, nodes)} adds {incs.get(keep_cnt, 0)} to {keep_cnt}: kept rows are not counted, "
+                               f"`not {keep_cnt}` resets the database although rows were kept")
                 if newpos is not None and incs.get(newpos, 0) != 1:
                     bad.append(f"KEEP path {_path_text(g, nodes)} advances {newpos} {incs.get(newpos, 0)} times")
                 for j in jvars:
@@ -385,9 +398,9 @@ def _remove_counters(ctx):
                 if newpos is not None and incs.get(newpos, 0) != 0:
                     bad.append(f"DROP path {_path_text(g, nodes)} advances {newpos}")
                 for j in jvars:
-                    if incs.get(j, 0) != 1:
+                    if incs.get(j, 0) not in (0, 1):
                         bad.append(f"DROP path {_path_text(g, nodes)} advances the candidate counter {j} "
-                                   f"{incs.get(j, 0)} times (early-exit test would be wrong)")
+                                   f"by {incs.get(j, 0)} (the early-exit test fires before every candidate was seen)")
         if renum:
             r = renum[0]
             cl = guard_clauses(guards(r, stop=lp))
@@ -450,7 +463,8 @@ def _update_counters(ctx):
                 if incs.get(j, 0) and not called:
                     bad.append(f"path {_path_text(g, nodes)} advances the candidate counter {j} on a non-candidate row")
                 if incs.get(j, 0) > 1:
-                    bad.append(f"path {_path_text(g, nodes)} advances {j} twice")
+                    bad.append(f"path {_path_text(g, nodes)} advances {j} by {incs.get(j, 0)} (the early-exit test fires before "
+                               f"every candidate was seen)")
         # REWRITE must be conditional on the updater's verdict being true
         bad_noop = []
         for n in walk_local(lp):
